@@ -243,6 +243,7 @@ type cstate struct {
 	readKilled   bool // a failing read / handler error / panic was delivered while the session could see it
 	writeFault   bool
 	isSession    bool
+	valueKind    string
 	exitFaulty   bool // xpanic / xblock was applied: outside the property's assumptions, monitors stand down
 }
 
@@ -430,33 +431,33 @@ const (
 )
 
 type world struct {
-	mode    string
-	tcp     bool // the sessions run over loopback TCP (modes tcp, pub, publ, pubx)
-	echo    bool // Echo sessions behind the accept loop
-	noCount bool // the manager is out of reach (NewTCPSrvX creates it)
-	stopped bool // the accept loop has returned
-	max     int
-	rt, wt  time.Duration
-	h       *handler
-	mgr     *stcp.SessionMgr
-	emgr    *stcp.EchoMgr
-	srv     *stcp.Server
-	addr    string // tcp worlds: where the server listens
+	mode       string
+	tcp        bool // the sessions run over loopback TCP (modes tcp, pub, publ, pubx)
+	echo       bool // Echo sessions behind the accept loop
+	noCount    bool // the manager is out of reach (NewTCPSrvX creates it)
+	stopped    bool // the accept loop has returned
+	max        int
+	rt, wt     time.Duration
+	h          *handler
+	mgr        *stcp.SessionMgr
+	emgr       *stcp.EchoMgr
+	srv        *stcp.Server
+	addr       string // tcp worlds: where the server listens
 	prevLogger *ulog.Logger
 	accMu      sync.Mutex
 	accPanic   string // the accept loop died of this panic
-	broken  bool   // an environment assumption of the property was broken on purpose (xpanic/xblock)
-	pl      *pipeListener
-	tl      net.Listener
-	srvErr  chan error
-	sess    []*cstate // accepted sessions, index = k of the script
-	all     []*cstate
-	rej     int
-	nconn   int
-	hits    []hit
-	late    int    // waits that ran into the ceiling
-	spin    bool   // a loop of the code under test never parks
-	dead    string // harness-level failure text, reported in every following line
+	broken     bool   // an environment assumption of the property was broken on purpose (xpanic/xblock)
+	pl         *pipeListener
+	tl         net.Listener
+	srvErr     chan error
+	sess       []*cstate // accepted sessions, index = k of the script
+	all        []*cstate
+	rej        int
+	nconn      int
+	hits       []hit
+	late       int    // waits that ran into the ceiling
+	spin       bool   // a loop of the code under test never parks
+	dead       string // harness-level failure text, reported in every following line
 }
 
 type hit struct{ key, what string }
@@ -600,7 +601,7 @@ func discardLogger() *ulog.Logger {
 	sink := zap.WrapCore(func(zapcore.Core) zapcore.Core {
 		return zapcore.NewCore(zapcore.NewJSONEncoder(enc), zapcore.AddSync(io.Discard), zapcore.DebugLevel)
 	})
-	return ulog.NewSimpleLogger(ulog.DebugLevelStr, zap.AddCaller(), sink)
+	return ulog.NewSimpleLogger(ulog.DebugLevelStr, zap.AddCaller(), zap.AddCallerSkip(1), sink)
 }
 
 // tcpListening reports whether some socket listens on addr, without connecting to it (/proc/net/tcp, state 0A).
@@ -868,6 +869,10 @@ func (w *world) connectN(n int) (acc, rej, lost int) {
 			return true
 		})
 	}
+	if p := w.acceptPanic(); p != "" && !w.stopped {
+		w.stopped = true
+		w.hit("C16:loopAccept:panic-kills-accept-loop", "the accept loop died: panic: "+p)
+	}
 	for _, c := range cs {
 		switch {
 		case c.registered():
@@ -898,6 +903,9 @@ func (w *world) connectN(n int) (acc, rej, lost int) {
 
 func (w *world) connect() string {
 	acc, rej, _ := w.connectN(1)
+	if w.acceptPanic() != "" && acc == 0 && rej == 0 {
+		return "panic:accept-loop"
+	}
 	switch {
 	case acc == 1:
 		return "acc" + strconv.Itoa(len(w.sess)-1)
@@ -988,7 +996,7 @@ func (w *world) peerWrite(cs *cstate, b byte) bool {
 }
 
 func (w *world) op(f []string) string {
-	three := f[0] == "send" || f[0] == "wpart" || f[0] == "wtemp"
+	three := f[0] == "send" || f[0] == "wpart" || f[0] == "wtemp" || f[0] == "setv"
 	if len(f) < 2 || three != (len(f) == 3) || len(f) > 3 {
 		return "bad-op"
 	}
@@ -1057,6 +1065,40 @@ func (w *world) op(f []string) string {
 			cs.e.Start()
 		} else {
 			s.Start()
+		}
+		w.settle(func() bool { return true })
+	case "setv":
+		// the application attaches a value to the session (Session.Set): every log line of the session then goes
+		// through absSessionInfo with that value — a plain one, one that implements IKeyZap, a typed nil IKeyZap
+		if w.echo {
+			return "bad-op"
+		}
+		if f[2] != "str" && f[2] != "kz" && f[2] != "nilkz" {
+			return "bad-op"
+		}
+		// Set stores into an atomic.Value: a second value of another dynamic type panics in the CALLER (contract of
+		// atomic.Value, not of the session): one kind of value per session (kz and nilkz share their type)
+		kind := f[2]
+		if kind == "nilkz" {
+			kind = "kz"
+		}
+		if cs.valueKind != "" && cs.valueKind != kind {
+			w.settle(func() bool { return true })
+			break
+		}
+		cs.valueKind = kind
+		switch f[2] {
+		case "str":
+			s.Set("user-42")
+		case "kz":
+			s.Set(&keyZapValue{id: 42})
+		case "nilkz":
+			s.Set((*keyZapValue)(nil))
+		default:
+			return "bad-op"
+		}
+		if s.Get() == nil {
+			w.hit("C16:sess:value-lost", "Session.Get() returns nil after Session.Set(v)")
 		}
 		w.settle(func() bool { return true })
 	case "uh":
@@ -1371,7 +1413,11 @@ func (w *world) destroy() {
 	case <-time.After(ceiling):
 	}
 	if w.prevLogger != nil {
-		ulog.SetDefaultLogger(w.prevLogger)
+		// SetDefaultLogger adds one caller skip to what it is given: take one off so that the restored logger is the old one
+		restored := *w.prevLogger // (the same struct copy SetDefaultLogger itself makes; the level switch is shared)
+		restored.Logger = w.prevLogger.Logger.WithOptions(zap.AddCallerSkip(-1))
+		ulog.SetDefaultLogger(&restored)
+		w.prevLogger = nil
 	}
 	deadline := time.Now().Add(ceiling)
 	for time.Now().Before(deadline) {
@@ -1394,6 +1440,70 @@ func (w *world) destroy() {
 		}
 		time.Sleep(200 * time.Microsecond)
 	}
+}
+
+// keyZapValue is an application value that knows how to describe itself in a log line (IKeyZap), also when nil
+type keyZapValue struct{ id int }
+
+func (v *keyZapValue) KeyZaps(ext ...zap.Field) []zap.Field {
+	if v == nil {
+		return append(ext, zap.String("user", "none"))
+	}
+	return append(ext, zap.Int("user", v.id))
+}
+
+// nopConn is a connection nobody talks on: the accept loop can only close it
+type nopConn struct{ closed *int32 }
+
+func (c nopConn) Read([]byte) (int, error)         { return 0, io.EOF }
+func (c nopConn) Write(b []byte) (int, error)      { return len(b), nil }
+func (c nopConn) Close() error                     { atomic.AddInt32(c.closed, 1); return nil }
+func (c nopConn) LocalAddr() net.Addr              { return pipeAddr("soak") }
+func (c nopConn) RemoteAddr() net.Addr             { return pipeAddr("soak") }
+func (c nopConn) SetDeadline(time.Time) error      { return nil }
+func (c nopConn) SetReadDeadline(time.Time) error  { return nil }
+func (c nopConn) SetWriteDeadline(time.Time) error { return nil }
+
+// soak: n surplus connections in a row on a full server (a long-running server's history: one error-level log line
+// per surplus connection), without observing in between. Only when the count has reached the maximum.
+func (w *world) soak(n int) string {
+	if w.pl == nil || w.noCount {
+		return "bad-op"
+	}
+	if c := w.count(); w.max >= 0 && c < w.max {
+		return "bad-op"
+	}
+	if w.stopped {
+		return "lost"
+	}
+	var closed int32
+	sent := 0
+	for i := 0; i < n; i++ {
+		select {
+		case w.pl.ch <- nopConn{&closed}:
+			sent++
+		case e := <-w.srvErr:
+			w.srvErr <- e
+			w.stopped = true
+		case <-time.After(ceiling):
+			w.stopped = true
+		}
+		if w.stopped {
+			break
+		}
+	}
+	w.settle(nil)
+	got := int(atomic.LoadInt32(&closed))
+	w.rej += got
+	if p := w.acceptPanic(); p != "" {
+		w.stopped = true
+		w.hit("C16:loopAccept:panic-kills-accept-loop", fmt.Sprintf("the accept loop died after %d of %d surplus connections: panic: %s", got, n, p))
+		return "panic:accept-loop"
+	}
+	if got != n {
+		w.hit("C16:accept:surplus-not-closed", fmt.Sprintf("ConnCount()=%d >= maxConn=%d: of %d surplus connections in a row only %d were closed", w.count(), w.max, n, got))
+	}
+	return "rej" + strconv.Itoa(got)
 }
 
 // acceptError makes the listener's Accept return an error: a temporary one (the loop backs off and retries, up to
